@@ -22,7 +22,7 @@ def span_origin_ok(o, extra=()):
     return k in ("arg", "const", "agg", "fnitem")
 
 
-PASS_THROUGH = ("TextRange::new", "TextSize::new", "TextSize::from", "::try_into", "::try_from", "::from", "::into", "::unwrap", "Range<Idx>::new", "TextRange::at", "TextRange::cover")
+PASS_THROUGH = ("TextRange::new", "TextSize::new", "TextSize::from", "::try_into", "::try_from", "::from", "::into", "::unwrap", "Range<Idx>::new")
 
 
 def deep_origins(prog, b, operand):
